@@ -46,13 +46,16 @@ theorem arSt_edns_true (s1 : State) (tr : Server.Transport) (p l : Nat) :
 theorem stLimit_self (s : State) : stLimit s.limit s = s := by
   cases s; simp [stLimit]
 
+/-- the response-size limit `handle_message` starts with -/
+def lim0 (tr : Server.Transport) : Nat := match tr with | .tcp => 65535 | .udp => 512
+
 /-- the base state: the writer as `handle_message_with_context` finds it after the question -/
 structure Base (s1 : State) (tr : Server.Transport) (payload : Nat) : Prop where
   edns : s1.edns = none
   size3 : 3 < s1.octets.size
   room : s1.cursor + 11 ≤ s1.available
   ar : s1.arcount + 1 ≤ 65535
-  lim : s1.limit = (match tr with | .udp => 512 | .tcp => 65535)
+  lim : s1.limit = lim0 tr
   buf : tr = .udp → 512 ≤ s1.octets.size ∧ payload ≤ s1.octets.size
   avail : s1.available = s1.limit
   sizeL : s1.limit ≤ s1.octets.size
@@ -249,7 +252,7 @@ theorem scanAr_spec (cfg : Server.Cfg) (tr : Server.Transport) (now : Nat) (req 
             cases htr : tr with
             | udp =>
               have : (stEdns cfg.payload s1).limit = 512 := by
-                show s1.limit = 512; rw [hb.lim, htr]
+                show s1.limit = 512; rw [hb.lim, htr]; rfl
               show stLimit 512 (stEdns cfg.payload s1) = _
               rw [← this, stLimit_self]
             | tcp => rfl
@@ -602,14 +605,14 @@ structure HdrOk (sH : State) (tr : Server.Transport) (payload : Nat) : Prop wher
   cursor : sH.cursor = 12
   edns : sH.edns = none
   tsig : sH.tsig = none
-  lim : sH.limit = (match tr with | .udp => 512 | .tcp => 65535)
+  lim : sH.limit = lim0 tr
   avail : sH.available = sH.limit
   size : sH.limit ≤ sH.octets.size
   buf : tr = .udp → payload ≤ sH.octets.size
 
 theorem HdrOk.lim512 {sH : State} {tr : Server.Transport} {payload : Nat} (h : HdrOk sH tr payload) :
     512 ≤ sH.limit := by
-  rw [h.lim]; cases tr <;> simp
+  rw [h.lim]; cases tr <;> simp [lim0]
 
 /-- the model's form of the spec's question -/
 def toQ (q : Spec.DQuestion) : WName :=
